@@ -128,7 +128,7 @@ func vpInList(l []string, s string) bool {
 //vp:set s 1 1
 //vp:set budget 200 1800
 //vp:set maxpaths 200000 1500000
-//vp:bounds session authenticated or not; selection mode in {roundrobin, signed, unsigned, any, other}; 1..hosts entries prefix++[placeholder]++suffix (affixes <= affix bytes); host query parameter absent or a string of <= s+1 bytes; query-token verdict arbitrary (verified in VP_C12_queryinfo) with subject <= s+1 bytes; user name of <= s+1 bytes with or without '@'; domain splitting, user-name template, no-username switches; token generators succeeding/failing
+//vp:bounds session authenticated or not; selection mode in {roundrobin, signed, unsigned, any, other}; 1..hosts entries prefix++[placeholder]++suffix (affixes <= affix bytes); host query parameter absent, or one or two values of <= s+1 bytes each; query-token verdict arbitrary (verified in VP_C12_queryinfo) with subject <= s+1 bytes; user name of <= s+1 bytes with or without '@'; domain splitting, user-name template, no-username switches; token generators succeeding/failing
 //vp:reach served refused unauth
 func VP_C12_download() {
 	vpResetWeb()
@@ -149,6 +149,10 @@ func VP_C12_download() {
 	if hasQ {
 		qHost = vpString("qhost", n+1)
 		vpQueryVals["host"] = []string{qHost}
+		if (mode == "unsigned" || mode == "any") && vpBool("host-param-repeated") {
+			// ?host=a&host=b: the first value is the one that counts everywhere
+			vpQueryVals["host"] = append(vpQueryVals["host"], vpStringN("qhost2", n+1))
+		}
 	}
 	qiCalls, qiTok, qiIss := 0, "", ""
 	qiSubject := ""
